@@ -159,7 +159,10 @@ func ProtoMonitor(sc *Scenario, w *World, x *Exec) []Violation {
 						if !neg {
 							bad("settings-only-when-negotiated", "s2c:settings-without-negotiation", fmt.Sprintf("%s: %s", ms.Name, FrameString(f)))
 						}
-						if !firstS2C {
+						// (a scripted peer that opens streams without waiting for the settings frame
+						// breaks the protocol first; the order of the server's answers to it is then
+						// not constrained)
+						if !firstS2C && !rawClient {
 							bad("settings-first", "s2c:settings-not-first", fmt.Sprintf("%s: %s is not the first server frame", ms.Name, FrameString(f)))
 						}
 						if m.StreamId != -1 {
@@ -171,7 +174,7 @@ func ProtoMonitor(sc *Scenario, w *World, x *Exec) []Violation {
 						firstS2C = false
 						continue
 					}
-					if firstS2C && neg {
+					if firstS2C && neg && !rawClient {
 						bad("settings-first", "s2c:frame-before-settings", fmt.Sprintf("%s: %s precedes the settings frame", ms.Name, FrameString(f)))
 					}
 					firstS2C = false
